@@ -12,6 +12,7 @@ Case == [s |-> s,
          up_raw |-> AllowedUpd("raw", s), up_tok |-> AllowedUpd("tok", s), up_part |-> AllowedUpd("part", s),
          dirty |-> DirtyStr, up_dirty |-> AllowedUpd("tok", DirtyStr)]
 Emit == PrintT(<<"CASE", ToJson(Case)>>)
+EmitS == PrintT(<<"CASE", ToJson([s |-> s])>>)
 \* sanity of the specification itself on every enumerated string
 Sane == /\ \A f \in {"raw", "tok", "part"} : \A r \in Allowed(f, s) : r.res = "ok" =>
              /\ Len(r.text) >= 1 /\ Len(r.types) = Len(r.text) /\ Len(r.bnd) = Len(r.text) - 1
